@@ -21,6 +21,9 @@ pub enum Pre {
     /// the PSK this message needs (slot given) has not been supplied: the call fails with MissingPsk after the
     /// tokens before the psk token were processed; then `set_psk`, then the valid call
     MissingPsk(usize),
+    /// (reader) a foreign message that carries a different ephemeral and is cut right after it: fails on length after
+    /// the "e" token was processed; then the genuine message
+    ForeignEphemeralThenShort,
 }
 
 fn indicators(hs: &snow::HandshakeState) -> (bool, bool, bool) {
@@ -65,10 +68,10 @@ pub fn step_write_pre<const HL: usize, const PL: usize, const DL: usize, const P
                 hs.read_message(&junk, &mut o)
             },
         };
-        assert!(r.is_err(), "C07 harness: the preliminary call was expected to fail");
+        assert!(r.is_err(), "C14: a call that must be refused (undersized buffer, out-of-turn call, missing PSK, truncated message) succeeded");
         if let Pre::MissingPsk(slot) = pre {
             assert!(r == Err(snow::Error::State(snow::error::StateProblem::MissingPsk)), "C12: a PSK that was not supplied must be reported as MissingPsk at the message that needs it");
-            assert!(hs.set_psk(slot, &rmw.psks[slot]).is_ok(), "C07 harness: set_psk");
+            assert!(hs.set_psk(slot, &rmw.psks[slot]).is_ok(), "C10: set_psk with a valid slot and a 32-byte key failed");
         }
         if pre == Pre::OutOfTurn {
             assert!(r == Err(snow::Error::State(snow::error::StateProblem::NotTurnToRead)), "C11: out-of-turn read must report NotTurnToRead");
@@ -146,19 +149,23 @@ pub fn step_read_pre<const HL: usize, const PL: usize, const DL: usize, const PL
         let r = match pre {
             Pre::SmallPayloadBuf => hs.read_message(&msg[..n], &mut out_s[..PLEN - 1]),
             Pre::MissingPsk(_) => hs.read_message(&msg[..n], &mut out_s),
+            Pre::ForeignEphemeralThenShort => {
+                let foreign: [u8; PL] = kani::any();
+                hs.read_message(&foreign, &mut out_s)
+            },
             _ => {
                 let junk: [u8; 2] = kani::any();
                 let mut b = [0u8; MSGBUF];
                 hs.write_message(&junk, &mut b)
             },
         };
-        assert!(r.is_err(), "C07 harness: the preliminary call was expected to fail");
+        assert!(r.is_err(), "C14: a call that must be refused (undersized buffer, out-of-turn call, missing PSK, truncated message) succeeded");
         if pre == Pre::OutOfTurn {
             assert!(r == Err(snow::Error::State(snow::error::StateProblem::NotTurnToWrite)), "C11: out-of-turn write must report NotTurnToWrite");
         }
         if let Pre::MissingPsk(slot) = pre {
             assert!(r == Err(snow::Error::State(snow::error::StateProblem::MissingPsk)), "C12: a PSK that was not supplied must be reported as MissingPsk at the message that needs it");
-            assert!(hs.set_psk(slot, &rmr.psks[slot]).is_ok(), "C07 harness: set_psk");
+            assert!(hs.set_psk(slot, &rmr.psks[slot]).is_ok(), "C10: set_psk with a valid slot and a 32-byte key failed");
         }
         assert!(indicators(&hs) == ind0, "C07: a failed call changed turn / finished indicators");
         assert!(hs.get_handshake_hash() == &hh0[..], "C07: a failed call changed the handshake hash");
@@ -873,3 +880,7 @@ table_harness!(c01_q_tokens_ix1, 36, false);
 table_harness!(c01_t_tokens_ix1_psk, 36, true);
 table_harness!(c01_q_tokens_i1x1, 37, false);
 table_harness!(c01_t_tokens_i1x1_psk, 37, true);
+
+// cleartext static key as the LAST field of a message with an empty payload (first message of the I-patterns)
+step_harness!(c01_q_step_ix_r0_empty_payload, step_read, 8, 4, 4, 0, Pat::IX, 0, 0, 34);
+step_harness!(c01_q_step_in_w0_empty_payload, step_write, 8, 4, 4, 0, Pat::IN, 0, 0, 34);
